@@ -230,7 +230,10 @@ class Prerequisite:
                     # -ve cycles: \b needs to be to the right of the `-` char.
                     pattern = fr"-\b{re.escape(msg[1:])}\b"
                 else:
-                    pattern = fr"\b{re.escape(msg)}\b"
+                    # (not preceded by `-`: don't match inside the message of
+                    # the same task at the negated cycle point, e.g. "1/x ..."
+                    # inside "-1/x ...")
+                    pattern = fr"(?<!-)\b{re.escape(msg)}\b"
                 expr = re.sub(
                     pattern,
                     self.SATISFIED_TEMPLATE % t_output,
